@@ -231,7 +231,7 @@ RetToNode(m, fr, v, orc) ==
                  IF "oracle" \in DOMAIN res.r THEN PowOracle(m, node, orc) ELSE PopRes(m, node, res)
       [] node.k = "un" -> PopRes(m, node, UnaryApply(m.heap, node.op, v))
       [] node.k = "assign" ->
-            LET cp == DeepCopy(m.heap, v) IN
+            LET cp == IF Dev("MutAssignNoCopy") THEN [h |-> m.heap, v |-> v] ELSE DeepCopy(m.heap, v) IN   \* mutant: non-vacuity of C12
             PopRet(Store([m EXCEPT !.heap = cp.h], fr.vm, node.name, cp.v), node, None)
       [] node.k = "short" -> ShortApply(m, fr, v)
       [] node.k = "if" ->
